@@ -53,3 +53,29 @@ Proof.
   - exfalso. rewrite Hz in QR. discriminate QR.
   - repeat split; auto.
 Qed.
+
+(* once the read loop has consumed client-done, the server's stdin is closed (and stays closed) *)
+Definition ev_cd (ev : event Z) : bool := match ev with EvMsg ClientDone => true | _ => false end.
+Definition hist_cd (s : state) : bool := existsb ev_cd (hist s).
+
+Lemma cd_step c s l s' : (hist_cd s = true -> stdin_closed s = true) -> step c s l = Some s' ->
+  (hist_cd s' = true -> stdin_closed s' = true).
+Proof.
+  unfold hist_cd. intros I H. des s. flat.
+  destruct l as [ev|t| | | |rv|i]; unf_step; flat; destruct crashed0; try discriminate H.
+  - inversion H; subst; flat; exact I.
+  - inversion H; subst; flat; exact I.
+  - inversion H; subst; flat; exact I.
+  - inversion H; subst; flat; exact I.
+  - brk; flat; rewrite ?existsb_app; cbn [existsb ev_cd]; rewrite ?orb_false_r; auto;
+      intros X; try (apply orb_true_iff in X; destruct X as [X|X]; [auto|discriminate X]); auto.
+  - brk; flat; auto.
+  - worker_cases H. brk; flat; auto.
+Qed.
+
+Lemma cd_closes c s : reachable c s -> hist_cd s = true -> stdin_closed s = true.
+Proof.
+  revert s. apply (reachable_invariant c (fun s => hist_cd s = true -> stdin_closed s = true)).
+  - intros X. cbv in X. discriminate X.
+  - intros s l s' I H. eapply cd_step; eauto.
+Qed.
